@@ -279,7 +279,7 @@ func twinProgram(src, mk, tr frag, x []byte, genesis bool, invoke int) Case {
 
 func TestTwins(t *testing.T) {
 	pbt.Run(t, pbt.Sub[Case]{
-		Name: "twins", Quick: 60000, Thorough: 2000000,
+		Name: "twins", Quick: 60000, Thorough: 4000000,
 		EnumDesc: fmt.Sprintf("complete cross product of %d item sources x %d twin makers x %d value-changing transformers x %d operand shapes x both eras", len(sources), len(makers), len(transformers), len(shapes)),
 		Enum: func(tier string, yield func(Case)) {
 			for _, g := range []bool{true, false} {
@@ -316,7 +316,7 @@ func TestTwins(t *testing.T) {
 
 func TestPrograms(t *testing.T) {
 	pbt.Run(t, pbt.Sub[Case]{
-		Name: "programs", Quick: 100000, Thorough: 3000000,
+		Name: "programs", Quick: 100000, Thorough: 8000000,
 		Gen: func(t *rapid.T) Case {
 			flags := sgen.Flags(t, sgen.FlagPoolNonSig)
 			var p sgen.Program
